@@ -188,9 +188,21 @@ def _as_mono(t):
     return Fraction(1), {t: 1}
 
 
+def _cancel_exp(d):
+    """E * recip(E) = 1 for exp atoms E (always > 0, so the reciprocal is unguarded): cancel in a factor dict"""
+    for f in [k for k in d if k.op == 'recip' and k.args[0].op == 'exp']:
+        g = f.args[0]
+        if d.get(g, 0) > 0 and d.get(f, 0) > 0:
+            m = min(d[f], d[g])
+            d[f] -= m
+            d[g] -= m
+    return d
+
+
 def _from_mono(c, d):
     if c == 0:
         return ZERO
+    d = _cancel_exp(dict(d))
     items = [(a, e) for a, e in d.items() if e != 0]
     if not items:
         return _mk('c', (), c)
@@ -268,7 +280,13 @@ def _poly(t, memo):
                         d = dict(m1)
                         for lid, ex in m2:
                             d[lid] = d.get(lid, 0) + ex
-                        m = tuple(sorted(d.items()))
+                        for lid in list(d):
+                            lf = _LEAF[lid]
+                            if lf.op == 'recip' and lf.args[0].op == 'exp' and d.get(lf.args[0].id, 0) > 0 and d[lid] > 0:
+                                k_ = min(d[lid], d[lf.args[0].id])
+                                d[lid] -= k_
+                                d[lf.args[0].id] -= k_
+                        m = tuple(sorted((a_, e_) for a_, e_ in d.items() if e_))
                         nv = nr.get(m, 0) + v1 * v2
                         if nv == 0:
                             nr.pop(m, None)
@@ -535,6 +553,11 @@ def axioms_of(nodes):
             b, = t.args
             if b.op == 'c':
                 continue
+            if b.op == 'exp':
+                # mul() cancels recip(E) * E for exp atoms, so the defining equation is built as a raw product node
+                pr = _mk('prod', tuple(sorted((t, b), key=lambda n_: n_.id)), tuple((n_.id, 1) for n_ in sorted((t, b), key=lambda n_: n_.id)))
+                out.append(cmp0(sub(pr, ONE), '='))
+                continue
             out.append(bor([cmp0(b, '='), cmp0(sub(mul(t, b), ONE), '=')]))
         elif t.op == 'sqrt':
             x, = t.args
@@ -549,6 +572,11 @@ def axioms_of(nodes):
         elif t.op == 'exp':
             out.append(cmp0(neg(t), '<'))
             u, = t.args
+            if u.op == 'c':
+                # rational enclosure of exp(constant): math.exp is within 1 ulp; widened to 1e-12 relative
+                v = Fraction(math.exp(float(u.val)))
+                out.append(cmp0(sub(_mk('c', (), v * (1 - Fraction(1, 10 ** 12))), t), '<'))
+                out.append(cmp0(sub(t, _mk('c', (), v * (1 + Fraction(1, 10 ** 12)))), '<'))
             if u.op != 'c':
                 # exp(u) >= 1 + u (all real u);  u < 0 -> exp(u) < 1
                 out.append(cmp0(sub(add(ONE, u), t), '<='))
@@ -691,6 +719,10 @@ def free_vars(roots):
 
 
 # ------------------------------------------------------------------ evaluation
+# numeric meaning of interpreted fn atoms (used by the random prescreen when the model gives no value for the atom)
+FN_EVAL = {'sin': math.sin, 'cos': math.cos, 'arccos': math.acos}
+
+
 def evaluate(roots, env, exact=True):
     """Evaluate terms at env: {var name: Fraction|float}.  Atoms are computed from their
     arguments (1/0 -> 0 by convention, documented: matches safe_division's selection).
@@ -731,7 +763,10 @@ def evaluate(roots, env, exact=True):
         elif op == 'exp':
             v = math.exp(float(vals[t.args[0].id]))
         elif op == 'fn':
-            v = env[_vname(t)]
+            if _vname(t) in env:
+                v = env[_vname(t)]
+            else:
+                v = FN_EVAL[t.val](*[float(vals[a.id]) for a in t.args])
         elif op == 'b':
             v = t.val
         elif op == 'cmp':
